@@ -225,3 +225,32 @@ impl BgMem {
 pub fn mem_all_zero(vm: &VM) -> bool {
     vm.mem.iter().all(|b| *b == 0)
 }
+
+/// Redirect the process's stdout (fd 1) to /dev/null while the guard lives.  Used while the
+/// print parser (which println!s) is exercised in-process.
+pub struct QuietStdout {
+    saved: i32,
+}
+impl QuietStdout {
+    pub fn new() -> QuietStdout {
+        use std::io::Write;
+        let _ = std::io::stdout().flush();
+        unsafe {
+            let saved = libc::dup(1);
+            let dn = libc::open(b"/dev/null\0".as_ptr() as *const libc::c_char, libc::O_WRONLY);
+            libc::dup2(dn, 1);
+            libc::close(dn);
+            QuietStdout { saved }
+        }
+    }
+}
+impl Drop for QuietStdout {
+    fn drop(&mut self) {
+        use std::io::Write;
+        let _ = std::io::stdout().flush();
+        unsafe {
+            libc::dup2(self.saved, 1);
+            libc::close(self.saved);
+        }
+    }
+}
